@@ -4,6 +4,7 @@ import random
 from fractions import Fraction
 
 from vf import import_desper
+from vf import session
 from vf.core import Res, HarnessError
 
 ID = 'C14'
@@ -122,6 +123,11 @@ def gen_random(rng):
 
 
 def gen_cases(tier, seed):
+    # whole "game sessions" (vf/session.py): the features used together,
+    # judged by the self-consistency invariants of this property
+    for i in range(150 if tier == 'quick' else 16 * 300):
+        yield session.gen(random.Random(f'C14/session/{seed}/{tier}/{i}'),
+                          tier)
     for n, case in enumerate(enum_cases()):
         if n % 3 == 1:
             # worlds that are falsy objects (a World subclass with __len__)
@@ -133,6 +139,8 @@ def gen_cases(tier, seed):
 
 
 def run_case(case):
+    if case.get('scenario') == 'session':
+        return session.run(case, 'C14')
     desper = import_desper()
     res = Res()
     log = []            # ('proc', start, iteration, world, proc, dt) ...
